@@ -10,7 +10,8 @@ stack-underflow fault.
 from .. import common, drive
 from ..avm import asm, absint, interp
 from ..recipe import build as rb
-from ..recipe import gen_ctrl, gen_expr, gen_reads, gen_sub
+from ..recipe import gen_ctrl, gen_expr, gen_reads, gen_sub, gen_opt
+from . import c03
 
 PID = "C05"
 _CFGS = None
@@ -46,10 +47,13 @@ def _worker(items, base):
             for rid, ln, msg in an.issues[:3]:
                 kind = "height" if ("height" in msg or "floor" in msg or "underflow" in msg or "retsub" in msg) else \
                     ("type" if ("required" in msg or "compares" in msg or "bytes on top" in msg) else "other")
+                feats = {"kind": kind, "driver": driver, "static": True}
+                if c03._optimises(cfg):
+                    feats.update(c03.optimizer_diff_features(c03._unopt_text(prog, cfg, drive.tickmode_for(cfg)), text))
                 out["violations"].append({
                     "driver": driver, "size": size, "title": "%s: %s at line %d of %s (v%d %s)" % (driver, msg, ln, rid, cfg.version, cfg.mode),
                     "recipe": prog, "cfg": cfg.to_json(), "issue": [rid, ln, msg], "teal": text,
-                    "features": {"kind": kind, "driver": driver, "static": True},
+                    "features": feats,
                 })
             # dynamic side: no type / underflow fault on any input (recipes here contain no anytype expression)
             if inputs:
@@ -59,11 +63,15 @@ def _worker(items, base):
                     cnt["executions"] = cnt.get("executions", 0) + 1
                     oc["run:" + res.verdict] = oc.get("run:" + res.verdict, 0) + 1
                     if res.verdict == "FAIL" and res.cat in ("type", "underflow"):
+                        feats = {"kind": "dynamic_" + res.cat, "driver": driver, "static": False}
+                        if c03._optimises(cfg):
+                            # structural relation to the unoptimised text (signature of the C03 optimiser finding)
+                            feats.update(c03.optimizer_diff_features(c03._unopt_text(prog, cfg, drive.tickmode_for(cfg)), text))
                         out["violations"].append({
                             "driver": driver, "size": size,
                             "title": "%s: run-time %s fault: %s (line %s, v%d)" % (driver, res.cat, res.why, res.line, cfg.version),
                             "recipe": prog, "cfg": cfg.to_json(), "input": inp, "teal": text,
-                            "features": {"kind": "dynamic_" + res.cat, "driver": driver, "static": False},
+                            "features": feats,
                         })
         cnt["states"] = cnt.get("states", 0) + 1
         cnt["transitions"] = cnt.get("transitions", 0) + max(1, size)
@@ -106,6 +114,8 @@ def run(tier):
         items.append((size, prog, "reads", None))
     for size, prog, inputs in gen_sub.programs(tier):
         items.append((size, prog, "subs", inputs))
+    for size, prog, placement in gen_opt.programs(3 if tier == "quick" else 4):
+        items.append((size, prog, "opt-" + placement, basic[1:]))
     rep.bounds["recipes"] = len(items)
     for sh in common.pmap_shards(_worker, items, order_seed=rep.seed):
         rep.merge(sh)
